@@ -465,6 +465,22 @@ func init() {
 					snap("S1", "N1"), snap("S2", "N2"), seekS("S0", "N1"), seekS("S0", "N2"),
 				},
 			},
+			{
+				// a seek revives an old message with FRESH retention: it is part of the
+				// backlog until that retention ends, however long ago it was published
+				ID: "C13/revived-older-than-retention", Prop: "C13", Depth: d(tier, 5, 6), Drain: true,
+				AlsoOwn: []string{"not-offered", "pull-skipped", "row-missing", "drain-stuck"},
+				Cfg: model.Cfg{Topics: []string{"T0"}, Subs: []model.SubCfg{
+					{Name: "S0", Topic: "T0", Retention: 40 * time.Minute},
+				}},
+				Prelude: []model.Op{pub1("T0", "", 0), pull("S0", 10), snap("S0", "N0"), ack("S0", "all"), tick("+30m")},
+				Alphabet: []model.Op{
+					seekT("S0", "before-all"), seekS("S0", "N0"),
+					tick("+30m"), tick("lease+"),
+					pull("S0", 10), ack("S0", "all"), pub1("T0", "", 0),
+					job("prune-expired-deliveries", 0, 100),
+				},
+			},
 		}
 	}
 
@@ -502,6 +518,22 @@ func init() {
 					reconfig("S0", "ret:10min"), reconfig("S1", "ret:40s"),
 					job("delete-expired-subscriptions", 0, 100),
 					tick("ret-"), tick("ret+"), tick("ttl-"), tick("ttl+"),
+				},
+			},
+			{
+				// "... counted from publish (or from a seek that revived it)": the same
+				// histories as C13/revived-older-than-retention, judged for C14
+				ID: "C14/retention-counted-from-the-reviving-seek", Prop: "C14", Depth: d(tier, 5, 6), Drain: true,
+				AlsoOwn: []string{"not-offered", "pull-skipped", "row-missing", "drain-stuck"},
+				Cfg: model.Cfg{Topics: []string{"T0"}, Subs: []model.SubCfg{
+					{Name: "S0", Topic: "T0", Retention: 40 * time.Minute},
+				}},
+				Prelude: []model.Op{pub1("T0", "", 0), pull("S0", 10), snap("S0", "N0"), ack("S0", "all"), tick("+30m")},
+				Alphabet: []model.Op{
+					seekT("S0", "before-all"), seekS("S0", "N0"),
+					tick("+30m"), tick("ret-"), tick("ret+"),
+					pull("S0", 10), ack("S0", "all"),
+					job("prune-expired-deliveries", 0, 100),
 				},
 			},
 			{
